@@ -102,8 +102,14 @@ func TestC04_Schedules(t *testing.T) {
 			ctx, cancel := context.WithCancel(context.Background())
 			req := httptest.NewRequest("GET", "http://x/", nil).WithContext(ctx)
 			req.Header.Set("X-Src", src)
+			unidentifiable := false
 			if byIP {
 				req.RemoteAddr = ipOf[src] + ":" + fmt.Sprint(rapid.IntRange(1024, 65535).Draw(t, "port"))
+				if !mustAdmit && !mustReject && rapid.IntRange(0, 11).Draw(t, "noPeerAddress") == 0 {
+					// the source cannot be identified: the request is refused with an error and takes no slot
+					req.RemoteAddr = rapid.SampledFrom([]string{"", ":4711"}).Draw(t, "badAddr")
+					unidentifiable = true
+				}
 			}
 			grp := ""
 			if outerLimit > 0 {
@@ -114,6 +120,21 @@ func TestC04_Schedules(t *testing.T) {
 			c, err := gate.Start(cl, req)
 			if err != nil {
 				t.Fatalf("%v", err)
+			}
+			if unidentifiable && (outerLimit == 0 || modelG[grp] < outerLimit) {
+				cancel()
+				if c.Entered || c.Rec.Status() < 400 || c.Panicked != nil {
+					t.Fatalf("a request whose source cannot be identified (RemoteAddr %q): entered=%v status=%d panic=%v; want an error response and no handler call\nschedule: %s", req.RemoteAddr, c.Entered, c.Rec.Status(), c.Panicked, strings.Join(log, " "))
+				}
+				log = append(log, fmt.Sprintf("start(unidentifiable)=%d", c.Rec.Status()))
+				return
+			} else if unidentifiable {
+				cancel()
+				log = append(log, "start(unidentifiable, outer limiter full)")
+				if c.Entered {
+					t.Fatalf("request entered although the outer limiter is full\nschedule: %s", strings.Join(log, " "))
+				}
+				return
 			}
 			wantAdmit := model[src] < limit
 			if outerLimit > 0 {
